@@ -13,6 +13,14 @@ claimed = {
    text='Seeded defer/panic/recover call trees (one fixed universal template; every frame draws its defers, panics, recursion) executed natively and in the interpreter from one choice list, first fault-free and then with a panic injected at every fault point of the tree (enumerated per tree) with panic values of 6 dynamic types; the event logs (defer order, recovered values, results, escaping panic) must be equal event by event. A separate battery covers deferred builtin calls.',
    note='Trusted: the Go toolchain as oracle. Excluded by documentation: recover inside compiled functions deferred by interpreted code, panic(nil), text of runtime-error panics. One fixed template: no syntactic variety.',
    technique='deterministic simulation: seeded fault plan (panic at every point) over a universal call tree + native twin, event-by-event'),
+ 'C12': dict(level='fault_enumeration', design='3.4',
+   text='Enumerated crash points: for each probe program a panic is injected before every executed statement (statement seam) and inside every compiled-function call, through every public entry path (Eval, Compile+RunExpr, ParseEvalPrint, DebugExpr) with debugger / trap-panic options varied, plus pairs where the second panic lands while the first is being handled (thorough). After the aborted evaluation a fixed battery (defer order, recover in/outside defers, re-panic, named results, closures over globals, a goroutine, loops, recursion, a debug-stepped call with recorded stops, a direct call of an interpreted function value with a breakpoint) must give exactly what a fresh interpreter gives.',
+   note='The fault space is enumerated exhaustively for the 6 fixed probe programs only; other programs are not covered. Trusted: the fresh interpreter as reference. Side effects of aborted code are excluded by construction of the battery.',
+   technique='deterministic simulation: exhaustive single (and paired) panic-point enumeration through the statement seam + battery vs fresh interpreter'),
+ 'C13': dict(level='fault_enumeration', design='3.5',
+   text='Enumerated interrupt delivery points: for 8 loop shapes Interp.Interrupt is delivered before every executed statement (from the evaluating goroutine, from another goroutine, doubled, from inside a compiled call, with Ctrl+C-enters-debugger, between evaluations). The executor must take the interrupt within 64 executed statements (else the seam aborts the run and reports it), the evaluation must end with the interrupt panic (or enter the debugger), the next evaluation must not see a stale flag, and the C12 battery must equal a fresh interpreter.',
+   note='Runs without the race detector (the async flag store is an intentional benign race). Bound of 64 statements is a budget from the property text. Fixed loop shapes only.',
+   technique='deterministic simulation: exhaustive interrupt-point enumeration through the statement seam + bounded-progress monitor + battery vs fresh interpreter'),
  'C33': dict(level='exploration', design='3.2',
    text='Seeded search over interleavings of the goroutine-registry protocol: short-lived goroutines enter interpreted code through go statements (named function, literal) and through compiled code calling interpreted closures, with yield points at every registry step (lookup, create, store, delete) and every statement; the identity source is either the real one (checked for constancy/uniqueness against runtime goroutine numbers) or a simulated pool of 3 identities with immediate reuse after exit. An ownership monitor at every frame allocation/release asserts that the runtime record and frames in use belong to the current live task only; results are compared with the native twin; ThreadSanitizer runs with the scheduler handshakes hidden.',
    note='Trusted: testing/synctest quiescence, runtime goroutine numbers (runtime.Stack) as ground truth for identity, ThreadSanitizer. The assembly GoID is observed, not explored. At most 3 live goroutines and 12 per run.',
